@@ -1,69 +1,97 @@
 import SaphyrVerif.Spec.Snippet
 import SaphyrVerif.Model.Snippet
 /-!
-# C17 — counter-example theorems (the implementation violates the statement on these witnesses)
+# C17 — regression theorems on the witnesses of the repaired findings
 
-Each theorem is about the model as it is (faithful to the code, see the differential run); the
-witness is also rendered by the real code in the oracle stream of `harness/src/snippet.rs` and listed
-in `known_findings.json`.
+Each theorem below was a counter-example theorem (the implementation violated the statement on the
+witness) until the finding was repaired in /repo; it now states the good behaviour of the model on
+the same witness. The model is tied to the repaired code by the differential run, and the same
+witnesses are rendered by the real code in the oracle stream of `harness/src/snippet.rs` under the
+unchanged oracle ids, so a regression shows up as a violation. The general (for-all) statements are in
+Props/C17.lean (`window_output_clean`, `fmt_window_safe`, `region_lines_exact`,
+`regions_cover_location`, `eof_line_terminated`, `reader_snippet_line_aligned`).
 -/
 namespace SaphyrVerif.Props.C17
 open SaphyrVerif SaphyrVerif.Snippet
 open SaphyrVerif.Spec.Snippet (clean)
 
-/-- (F) `report_label_unsanitized_witness` — finding `C17-message-control-chars`.
+/-- (R) `report_label_sanitized_regression` — finding `C17-message-control-chars`, fixed.
 Document `"\e[31m": 1` into a struct with `deny_unknown_fields`: the message reflects the key
-(`unknown field `<ESC>[31m``). The source window is sanitised, but title and label handed to the
-external renderer contain the raw ESC (annotate-snippets was observed to rewrite C0 in the title only,
-and C1 nowhere), so the rendered report is not terminal-safe. -/
-theorem report_label_unsanitized_witness :
+(`unknown field `<ESC>[31m``). Title and label handed to the external renderer are now sanitised
+like the source window: ESC has become a space. -/
+theorem report_label_sanitized_regression :
     (match snippetRequest "\"\\e[31m\": 1\n".toList ⟨1, 1⟩ (some 1) 64 "unknown field `\x1b[31m`".toList with
-     | .ok (some r) => clean r.source && !clean r.label && !clean r.title
+     | .ok (some r) =>
+       clean r.source && clean r.label && clean r.title &&
+       (r.label == "unknown field ` [31m`".toList) &&
+       (r.title == "line 1 column 1: unknown field ` [31m`".toList)
      | _ => false) = true := by
   decide +kernel
 
-/-- (F) `reader_window_mid_line_witness` — finding `C17-reader-window-starts-mid-line`.
+/-- (R) the same with a C1 control (CSI, U+009B) and DEL in the reflected text -/
+theorem report_label_sanitized_c1_regression :
+    (match snippetRequest "k: 1\n".toList ⟨1, 1⟩ none 64 "unknown field `\u009b31m\x7f`".toList with
+     | .ok (some r) => clean r.label && clean r.title && (r.label == "unknown field `\u00a031m `".toList)
+     | _ => false) = true := by
+  decide +kernel
+
+/-- (R) `reader_window_mid_line_regression` — finding `C17-reader-window-starts-mid-line`, fixed.
 Stream `key: AAAAAAAAAAAA⏎b: 1⏎` read to the end through a ring of 8 bytes (the real ring has
-`RING_BUFFER_SIZE = 3072`; the logic does not depend on the size): no line break has been evicted, so
-the snapshot `AA⏎b: 1⏎` is attached as a fragment starting at line 1. An error located at line 1
-column 1 (the `k`) is then rendered with the marker on the first `A` of the fragment: the window does
-contain "line 1", but it is only the tail of that line and the column is applied to the tail. -/
-theorem reader_window_mid_line_witness :
-    (match ringRun 8 0 (encode "key: AAAAAAAAAAAA\nb: 1\n".toList) 100 with
-     | .ok (_, _, startLine, bytes) =>
-       match decode bytes with
-       | some fragment =>
-         match withSnippetRegions fragment ⟨1, 1⟩ (some startLine) 64 with
-         | .ok regions =>
-           match renderPrepare regions ⟨1, 1⟩ 64 with
-           | .ok (some p) =>
-             startLine == 1 && p.displayStartRow == 1 &&
-             (dropBytes p.windowText p.localStart).bind List.head? == some 'A' &&
-             Spec.Snippet.charAtCol (Spec.Snippet.visibleLine "key: AAAAAAAAAAAA\nb: 1\n".toList 1) 1 == some 'k'
-           | _ => false
-         | _ => false
-       | none => false
+`RING_BUFFER_SIZE = 3072`; the logic does not depend on the size). The snapshot `AA⏎b: 1⏎` starts in
+the middle of line 1, so the text attached for snippets leaves that partial line out: it is `b: 1⏎`
+starting at line 2. An error located at line 1 column 1 gets no region (it is rendered without a
+snippet instead of marking an `A`), and an error at line 2 column 1 is marked on the `b`. -/
+theorem reader_window_mid_line_regression :
+    (match ringRunAligned 8 0 (encode "key: AAAAAAAAAAAA\nb: 1\n".toList) 100 with
+     | .ok (starts, fragment, startLine) =>
+       !starts && (fragment == "b: 1\n".toList) && startLine == 2 &&
+       (match withSnippetRegions fragment ⟨1, 1⟩ (some startLine) 64 with
+        | .ok regions => regions.isEmpty
+        | _ => false) &&
+       (match withSnippetRegions fragment ⟨2, 1⟩ (some startLine) 64 with
+        | .ok regions =>
+          match renderPrepare regions ⟨2, 1⟩ 64 with
+          | .ok (some p) =>
+            p.displayStartRow == 2 &&
+            (dropBytes p.windowText p.localStart).bind List.head? ==
+              Spec.Snippet.charAtCol (Spec.Snippet.visibleLine "key: AAAAAAAAAAAA\nb: 1\n".toList 2) 1
+          | _ => false
+        | _ => false)
      | _ => false) = true := by
   decide +kernel
 
-/-- (F) `region_covers_line_after_window_witness` — finding `C17-region-end-line-overcount`.
-Text `a: x⏎b: 1⏎c: 2⏎d: y⏎e: 5⏎` with two located issues (garde / validator report both), at line 1 and
-at line 4. The region stored for line 1 holds rows 1..3, but `line_count_including_trailing_empty_line`
-counts the empty line after the final line break, so its `end_line` is 4 and `covers` claims line 4.
-`pick_cropped_region` therefore picks this first region for the issue on line 4, where row 4 is the
-(empty) line after the last line break: column 4 does not exist there and the issue is rendered without
-any snippet, although a region that really contains line 4 was stored second. -/
-theorem region_covers_line_after_window_witness :
+/-- (R) a snapshot that starts right after an evicted line break keeps its first line -/
+theorem reader_window_line_start_regression :
+    ringRunAligned 5 0 (encode "ab\nb: 1\n".toList) 100 = .ok (true, "b: 1\n".toList, 2) := by
+  decide +kernel
+
+/-- (R) `region_end_line_regression` — finding `C17-region-end-line-overcount`, fixed.
+Text `a: x⏎b: 1⏎c: 2⏎d: y⏎e: 5⏎` with two located issues, at line 1 and at line 4. The region stored for
+line 1 holds rows 1..3 and now ends at line 3: it no longer claims line 4, `pick_cropped_region` picks
+the region that was stored for line 4, and the issue on line 4 is rendered with its snippet. A region
+at the end of the input still covers the empty line after the final line break. -/
+theorem region_end_line_regression :
     (match regionFor "a: x\nb: 1\nc: 2\nd: y\ne: 5\n".toList ⟨1, 4⟩ none 64,
-           regionFor "a: x\nb: 1\nc: 2\nd: y\ne: 5\n".toList ⟨4, 4⟩ none 64 with
-     | .ok (some a), .ok (some d) =>
-       a.text == "a: x\nb: 1\nc: 2\n".toList && a.startLine == 1 && a.endLine == 4 &&   -- 3 rows, "ends" at 4
-       a.covers ⟨4, 4⟩ &&
-       (pickRegion [a, d] ⟨4, 4⟩).map (·.startLine) == some 1 &&                          -- the wrong region
-       d.startLine == 2 && d.covers ⟨4, 4⟩ &&                                              -- the right one exists
-       (match renderPrepare [a, d] ⟨4, 4⟩ 64 with | .ok none => true | _ => false) &&       -- no snippet shown
-       (match renderPrepare [d] ⟨4, 4⟩ 64 with | .ok (some _) => true | _ => false)          -- it could have been
-     | _, _ => false) = true := by
+           regionFor "a: x\nb: 1\nc: 2\nd: y\ne: 5\n".toList ⟨4, 4⟩ none 64,
+           regionFor "a: x\nb: 1\nc: 2\nd: y\ne: 5\n".toList ⟨6, 1⟩ none 64 with
+     | .ok (some a), .ok (some d), .ok (some e) =>
+       a.text == "a: x\nb: 1\nc: 2\n".toList && a.startLine == 1 && a.endLine == 3 &&
+       !a.covers ⟨4, 4⟩ &&
+       (pickRegion [a, d] ⟨4, 4⟩).map (·.startLine) == some 2 &&
+       d.startLine == 2 && d.endLine == 6 && d.covers ⟨4, 4⟩ &&
+       (match renderPrepare [a, d] ⟨4, 4⟩ 64 with | .ok (some _) => true | _ => false) &&
+       e.startLine == 4 && e.endLine == 6 && e.covers ⟨6, 1⟩
+     | _, _, _ => false) = true := by
+  decide +kernel
+
+/-- (R) `eof_line_shown_regression` — finding `C17-location-on-empty-last-line`, fixed.
+`name: 'unterminated⏎` reports line 2 column 1 (the empty line after the final line break). The
+source handed to the external renderer now has that line terminated, with the span on it. -/
+theorem eof_line_shown_regression :
+    (match snippetRequest "name: 'unterminated\n".toList ⟨2, 1⟩ (some 1) 64 "msg".toList with
+     | .ok (some r) =>
+       (r.source == "name: 'unterminated\n\n".toList) && r.lineStart == 1 && r.spanStart == 20 && r.spanEnd == 20
+     | _ => false) = true := by
   decide +kernel
 
 end SaphyrVerif.Props.C17
